@@ -24,3 +24,20 @@ Theorem C16_merge_doubles :
   /\ double_at (TOp OLt) (TOp OGt) = Some (TOp ONe).
 Proof. repeat split; reflexivity. Qed.
 Print Assumptions C16_merge_doubles.
+
+(* ---- letter case (proofs in Proofs/CaseFold.v) ---- *)
+From BL Require Import Mach.Func Proofs.CaseFold.
+
+(* the word scanner (keywords, operators spelled as words, identifiers) gives the same tokens for texts that differ only
+   in the case of their letters, and leaves remainders that again differ only in case *)
+Theorem C16_word_scanner_ignores_case : forall cs cs' s digit pend, same_letters cs cs' ->
+  fst (alpha_loop cs s digit pend) = fst (alpha_loop cs' s digit pend)
+  /\ same_letters (snd (alpha_loop cs s digit pend)) (snd (alpha_loop cs' s digit pend)).
+Proof. exact alpha_loop_case. Qed.
+Print Assumptions C16_word_scanner_ignores_case.
+
+(* characters with the same upper-case form fall into the same classes of the scanner *)
+Theorem C16_classes_ignore_case : forall c d, to_upper c = to_upper d ->
+  is_alpha c = is_alpha d /\ is_digit c = is_digit d /\ is_suffix_chr c = is_suffix_chr d /\ is_ws c = is_ws d.
+Proof. exact to_upper_class. Qed.
+Print Assumptions C16_classes_ignore_case.
